@@ -520,11 +520,16 @@ def characterize_rule(ctx, rule: str):
     no candidate was valid."""
     p = ctx.program
     fi = p.get_func("moclo.core.parts.AbstractPart.characterize")
-    ap = p.get_class("moclo.core.parts.AbstractPart")
-    subs = [c for c in p.all_classes() if ap in c.bases][:2]
-    if len(subs) < 2:
-        raise AnalysisError("need two direct subclasses of AbstractPart to evaluate characterize()")
-    S1, S2 = subs
+    root = p.get_class("moclo.core.parts.AbstractPart")
+    ap = None
+    for c in p.all_classes():
+        # a kit's part base (declares the cutter) with at least two direct subclasses
+        if root in c.bases and len([d for d in p.all_classes() if c in d.bases]) >= 2:
+            ap = c
+            break
+    if ap is None:
+        raise AnalysisError("no kit part base with two direct subclasses: cannot evaluate characterize()")
+    S1, S2 = [d for d in p.all_classes() if ap in d.bases][:2]
 
     def class_getattr(fr, base, a, node):
         if a == "__subclasses__" and base is ap:
